@@ -319,7 +319,7 @@ func (intr *treeInterpreter) fieldFromStruct(key string, value interface{}) (int
 	first, n := utf8.DecodeRuneInString(key)
 	fieldName := string(unicode.ToUpper(first)) + key[n:]
 	if rv.Kind() == reflect.Struct {
-		v := rv.FieldByName(fieldName)
+		v := structField(rv, fieldName)
 		if !v.IsValid() {
 			return nil, nil
 		}
@@ -330,13 +330,37 @@ func (intr *treeInterpreter) fieldFromStruct(key string, value interface{}) (int
 			return nil, nil
 		}
 		rv = rv.Elem()
-		v := rv.FieldByName(fieldName)
+		v := structField(rv, fieldName)
 		if !v.IsValid() {
 			return nil, nil
 		}
 		return interfaceOf(v), nil
 	}
 	return nil, nil
+}
+
+// structField is rv.FieldByName(name) that yields the zero Value instead of
+// panicking when the field is promoted through a nil embedded pointer (or
+// when rv is not a struct).
+func structField(rv reflect.Value, name string) reflect.Value {
+	if rv.Kind() != reflect.Struct {
+		return reflect.Value{}
+	}
+	sf, ok := rv.Type().FieldByName(name)
+	if !ok {
+		return reflect.Value{}
+	}
+	v := rv
+	for _, i := range sf.Index {
+		if v.Kind() == reflect.Ptr {
+			if v.IsNil() {
+				return reflect.Value{}
+			}
+			v = v.Elem()
+		}
+		v = v.Field(i)
+	}
+	return v
 }
 
 func (intr *treeInterpreter) flattenWithReflection(value interface{}) (interface{}, error) {
